@@ -242,13 +242,20 @@ def mutate_json(text, kind, a, b, c, d):
         return text
 
 
-def add_unsorted_region(s):
+def add_unsorted_region(s, to_start=False):
     evs = s.get("events") or []
     if len(evs) < 4:
         return
-    clk = evs[len(evs) // 2][1]
-    ins = [T.ev("OU[", clk, ""), T.ev("OB.", max(0, clk - 3), ""), T.ev("OB.", max(0, clk - 5), ""), T.ev("OU]", clk, "")]
-    k = len(evs) // 2 + 1
+    if to_start:
+        # a region whose events belong before everything else in the stream
+        k = 2
+        clk = evs[k - 1][1]
+        first = evs[0][1]
+        ins = [T.ev("OU[", clk, ""), T.ev("OB.", first, ""), T.ev("OB.", first, ""), T.ev("OU]", clk, "")]
+    else:
+        clk = evs[len(evs) // 2][1]
+        ins = [T.ev("OU[", clk, ""), T.ev("OB.", max(0, clk - 3), ""), T.ev("OB.", max(0, clk - 5), ""), T.ev("OU]", clk, "")]
+        k = len(evs) // 2 + 1
     s["events"] = evs[:k] + ins + evs[k:]
 
 
@@ -256,8 +263,13 @@ def materialise(case):
     base = judge.strip(json.loads(json.dumps(case["base"])))
     streams = base["streams"]
     if case.get("ou"):
-        for s in streams[:1]:
-            add_unsorted_region(s)
+        # regions in the first and/or in a later stream (path order), sorting into
+        # the middle or to the very start of the stream
+        sel = case["muts"][0][2] if case.get("muts") else 0
+        order = sorted(range(len(streams)), key=lambda i: T.stream_relpath(streams[i]))
+        for j, i in enumerate(order):
+            if (sel >> j) & 1 or (j == 0 and sel % 4 == 0):
+                add_unsorted_region(streams[i], to_start=bool((sel >> (8 + j)) & 1))
     raw = []
     for s in streams:
         raw.append([T.stream_relpath(s), T.obs_bytes(s), T.json_text(s)])
